@@ -262,6 +262,7 @@ class Run:
     def cbmc_cmd(self, h, cfg, extra_defs=(), more=()):
         files = [self.tus[k]['c'] for k in h['kernels']] + [os.path.join(ROOT, h['src'])]
         defs = ['-D%s=%s' % (k, v) for k, v in cfg.items() if not k.startswith('_')] + ['-D' + d for d in extra_defs]
+        if os.environ.get('NMV_LIFETIME') and 'LL_LIFETIME' not in cfg: defs.append('-DLL_LIFETIME=1')   # experiment switch: dead stack objects arbitrary in every query
         unwind = cfg.get('_unwind', h.get('unwind', 8))
         cmd = ['cbmc'] + files + ['-I' + ENGINE, '-I' + self.scratch, '-I' + os.path.join(ROOT, 'harnesses')] + defs + [
             '--function', h['func'], '--unwind', str(unwind), '--unwinding-assertions', '--drop-unused-functions',
